@@ -278,12 +278,15 @@ def split_trace(trace_path, d, tag, parts):
     return files, len(runs), sum(len(r) for r in runs)
 
 
+CRASH_RE = re.compile(r'^"?<<\\?"CRASHED\\?", (\d+)>>"?$')
+LAST_CRASHED = set()   # run ids in which some actor failed or panicked (filled by the latest trace_monitor call)
 BAD_RE = re.compile(r'^"?<<\\?"BAD\\?", (\d+), (\d+), \{(.*)\}>>"?$')
 PAIR_RE = re.compile(r'<<\\?"(C\d+)\\?", \\?"([^"\\]*)\\?">>')
 
 
 def trace_monitor(d, files, timeout=900):
     """Run TraceMon.tla over each chunk (in parallel); returns list of (run, line, prop, why)."""
+    LAST_CRASHED.clear()
     cfgp = os.path.join(d, "TraceMon.cfg")
     open(cfgp, "w").write("SPECIFICATION Spec\nPOSTCONDITION Consumed\nCHECK_DEADLOCK FALSE\n")
 
@@ -304,6 +307,10 @@ def trace_monitor(d, files, timeout=900):
             if m:
                 for pm in PAIR_RE.finditer(m.group(3)):
                     bads.append((int(m.group(1)), int(m.group(2)), pm.group(1), pm.group(2)))
+            else:
+                c = CRASH_RE.match(line.strip())
+                if c:
+                    LAST_CRASHED.add(int(c.group(1)))
         shutil.rmtree(path + ".meta", ignore_errors=True)
         return bads
     allb = []
@@ -507,7 +514,7 @@ def do_check(pid, plan, tier, seed, d, evid_path, t0):
                 nontrivial.add(key)
                 if len(samples) < 3:
                     samples.append({"stage": g["name"], "run": rid, "commands": commands_of(evs)[:40]})
-        mine = [b for b in bads if b[2] == pid or (pid == "C12" and plan.get("c12_all"))]
+        mine = [b for b in bads if b[2] == pid or (pid == "C12" and plan.get("c12_all") and b[0] in LAST_CRASHED)]
         seen_runs = set()
         for (rid, line, prop, why) in mine:
             if rid in seen_runs:
@@ -545,7 +552,7 @@ def do_check(pid, plan, tier, seed, d, evid_path, t0):
     # ---- extra stages ------------------------------------------------------------------
     extra_cov = {}
     for st in T.get("extra", []):
-        ctx = {"ToolError": ToolError, "run": run, "save_replay": save_replay, "log": log,
+        ctx = {"crashed": LAST_CRASHED, "ToolError": ToolError, "run": run, "save_replay": save_replay, "log": log,
                "build_harness": build_harness, "trace_monitor": trace_monitor, "split_trace": split_trace,
                "load_runs": load_runs, "NCPU": NCPU}
         res = st["fn"](pid, tier, seed, d, binp, st, ctx)
